@@ -235,7 +235,7 @@ class DataConnection(Connection, abc.ABC):
 
         try:
             async with atimeout(timeout):
-                self._reader, self._writer = await asyncio.open_connection(
+                reader, writer = await asyncio.open_connection(
                     self.hostname, self.port)
 
         except (Exception, asyncio.TimeoutError) as exc:
@@ -243,6 +243,15 @@ class DataConnection(Connection, abc.ABC):
             raise ConnectionFailedError(f"{self.hostname}:{self.port} : failed to connect") from exc
 
         else:
+            if self.state != ConnectionState.CONNECTING:
+                # `disconnect` was called while the connection was being
+                # opened: the connection is CLOSING / CLOSED and should not be
+                # revived
+                writer.close()
+                raise ConnectionFailedError(
+                    f"{self.hostname}:{self.port} : disconnected while connecting")
+
+            self._reader, self._writer = reader, writer
             adapter.debug("connected", extra=self.__dict__)
             await self.set_state(ConnectionState.CONNECTED)
 
